@@ -247,6 +247,26 @@ def u_rebind_while(n, r):
             'print(fn_halve{n}(9), fn_halve{n}(1))'], {}
 
 
+def u_arith(n, r):
+    # single-assignment variables whose values sit at the same precedence level as their uses
+    return ['def fn_calc{n}(par_a{n}, par_b{n}, par_c{n}):',
+            '    var_d{n} = par_a{n} - par_b{n}',
+            '    var_q{n} = par_a{n} // par_b{n}',
+            '    var_p{n} = par_a{n} ** 2',
+            '    var_lt{n} = par_a{n} < par_b{n}',
+            '    var_m{n} = par_a{n} % par_b{n}',
+            '    var_o{n} = par_a{n} or par_b{n}',
+            '    var_r1{n} = par_c{n} - var_d{n}',
+            '    var_r2{n} = par_c{n} * var_q{n}',
+            '    var_r3{n} = var_p{n} ** 2',
+            '    var_r4{n} = par_c{n} == var_lt{n}',
+            '    var_r5{n} = par_c{n} / var_m{n}',
+            '    var_r6{n} = not var_o{n}',
+            '    var_r7{n} = -var_d{n} ** 2',
+            '    return [var_r1{n}, var_r2{n}, var_r3{n}, var_r4{n}, var_r5{n}, var_r6{n}, var_r7{n}]',
+            'print(fn_calc{n}(7, 2, 10), fn_calc{n}(3, 5, 1))'], {}
+
+
 # ---- multi-module units
 
 def m_import_module(n, r):
@@ -297,7 +317,7 @@ def m_submodule(n, r):
 
 SINGLE = [u_function, u_class, u_inherit, u_closure_nonlocal, u_closure, u_comp_filter, u_comp, u_loop,
           u_try, u_lambda, u_generator, u_decorator, u_property, u_global, u_with, u_starargs, u_dicts,
-          u_walrus_while, u_method_chain, u_rebind_if, u_rebind_try, u_rebind_while]
+          u_walrus_while, u_method_chain, u_rebind_if, u_rebind_try, u_rebind_while, u_arith, u_arith]
 MULTI = [m_import_module, m_from_import, m_alias, m_reexport, m_keyword_across, m_submodule]
 
 
